@@ -972,6 +972,8 @@ func (a *align) TranslateByReference(phase int, geneticcode int, refseq string) 
 			return
 		}
 	}
+	// The sequences are now amino acids: detect the alphabet again, as Translate does
+	a.AutoAlphabet()
 
 	return
 }
